@@ -243,6 +243,26 @@ class ExecGen:
         self.budget = 6
         self.used_vars = set()
         sel = self.selection(self.root(), 0, Reg(), names, True, 2 + r.below(2))
+        # one composite field selected THREE times in the operation's root selection set: plainly, then twice under conditions on one variable the
+        # first selection does not mention (the merge of the first two must remember what the second branched on)
+        if r.chance(1, 3):
+            root = self.root()
+            for f in self.types[root]["fields"]:
+                ut = unwrap(f["type"])
+                if self.kind(ut) not in ("object", "interface") or any(a["type"]["k"] == "nn" and not a["hasDefault"] for a in f["args"]):
+                    continue
+                leaves = [g for g in self.types[ut]["fields"] if self.kind(unwrap(g["type"])) not in ("object", "interface", "union")
+                          and not any(a["type"]["k"] == "nn" and not a["hasDefault"] for a in g["args"])]
+                key = "tri"
+                if len(leaves) < 2:
+                    continue
+                v = r.choice(["a", "b"])
+                self.used_vars.add(v)
+                l0, l1, l2 = leaves[0], leaves[1 % len(leaves)], leaves[2 % len(leaves)]
+                sel.append(G.field(f["name"], key, [], [], [G.field(l0["name"], "t0")]))
+                sel.append(G.field(f["name"], key, [], [], [G.field(l1["name"], "t1", None, [G.directive("skip", [G.arg("if", G.v_var(v))])])]))
+                sel.append(G.field(f["name"], key, [], [], [G.field(l2["name"], "t2", None, [G.directive("include", [G.arg("if", G.v_var(v))])])]))
+                break
         spread_names = set()
 
         def spreads(s):
